@@ -135,7 +135,7 @@ def gate_fact(prog, f, bb):
                 return None, "map() is not called with a closure literal"
             inner = decision.show(decision.bool_expr(prog.fns[mclos[-1][1][1]["def"]]))
             recv = f.origin(mc.args[0])
-        if not re.fullmatch(r"matches\(arg2,.*username.*,.*password.*\)", inner):
+        if not re.fullmatch(r"matches\(arg2,.*\)", inner):
             return None, "the per-candidate test is `%s`, expected candidate.matches(username, password)" % inner
         if not (recv and recv[-1][0] == "call" and re.search(r"::iter$|into_iter$", recv[-1][1].callee or "")):
             return None, "any() does not range over self.iter()"
@@ -165,12 +165,15 @@ def c13a_gate(ck, prog):
             mcalls = [c for g in [f] + prog.descendants(f.key) for c in g.calls_to(r"basicauth::BasicAuth::<S>::matches$")]
             for c in mcalls:
                 g = c.fn
-                d1, d2 = decision.describe_deep(g, c.args[1], 6), decision.describe_deep(g, c.args[2], 6)
-                # in the closure form the halves are captured variables
-                src = d1 + " | " + d2
-                ok = bool(re.search(r"username", d1) or re.search(r"split_once.*\.0", d1)) and bool(re.search(r"password", d2) or re.search(r"split_once.*\.1", d2))
+                # name-independent: an argument is either the value itself or a captured variable, resolved in the enclosing body
+                def src_of(a):
+                    cap = paths.capture_desc(prog, g, a, 10) if g is not f else None
+                    return cap if cap else decision.describe_deep(g, a, 10)
+                d1, d2 = src_of(c.args[1]), src_of(c.args[2])
+                src = d1[-60:] + " | " + d2[-60:]
+                ok = re.search(r"split_once\(.*@Continue\.0\.0$|split_once\(.*@Some\.0\.0$", d1) is not None and re.search(r"split_once\(.*@Continue\.0\.1$|split_once\(.*@Some\.0\.1$", d2) is not None
                 ck.ob("C13-a MUSTPASS gate", "%s:matches-args" % which, ok, g.loc(c.sp),
-                      "" if ok else "matches() is called with (%s), expected (username, password) = the halves of split_once(':')" % src, how="matches(%s)" % src)
+                      "" if ok else "matches() is called with (..%s), expected (first half, second half) of split_once(':')" % src, how="matches(split.0, split.1)")
         # split_once(':') -- callee identity and the separator
         sp = f.calls_to(r"^core::str::<impl str>::(split_once|rsplit_once|split|rsplit|splitn|rsplitn|split_terminator|split_at)")
         ok = len(sp) == 1 and sp[0].name == "split_once"
